@@ -2,6 +2,7 @@
    the forest (for every pair of text readers that invert lyxml_dump_text on a class of values: the standard ones and
    the model of libyang's lexer), and the schema-directed conversion gives the forest back. *)
 From LY Require Import Base Utf8 Utf8P XmlText XmlTextP JsonText JsonTextP StdText StdTextP Tree TreeP XmlDoc.
+From LY Require IntLexP.
 From Coq Require Import ZifyBool ZifyNat ZifyN.
 Local Open Scope N_scope.
 
@@ -213,15 +214,13 @@ Record mod_facts (t : doctabs) (m : N) (mi : modinfo) : Prop := {
   mf_ns : ns_ok (mi_ns mi);
   mf_assoc : exists mi0, assocN (dt_mods t) m = Some mi0;
   mf_byns : mod_by_ns (dt_mods t) (mi_ns mi) = Some (m, mi);
-  mf_byname : mod_by_name (dt_mods t) (mi_name mi) = Some mi;
-  mf_func : forall m' mi', In (m', mi') (dt_mods t) -> mi_prefix mi' = mi_prefix mi -> mi_ns mi' = mi_ns mi
+  mf_byname : mod_by_name (dt_mods t) (mi_name mi) = Some mi
 }.
 
 Lemma mods_ok_entry t m mi : mods_okb t = true -> In (m, mi) (dt_mods t) -> mod_facts t m mi.
 Proof.
   unfold mods_okb. rewrite forallb_forall. intros H Hin. specialize (H _ Hin). cbn beta iota in H.
   repeat (apply andb_true_iff in H; destruct H as [H ?]).
-  match goal with Hf : forallb _ (dt_mods t) = true |- _ => rename Hf into Hfun end.
   match goal with Hf : match mod_by_name _ _ with _ => _ end = true |- _ => rename Hf into Hbn end.
   match goal with Hf : match mod_by_ns _ _ with _ => _ end = true |- _ => rename Hf into Hbs end.
   match goal with Hf : match assocN _ _ with _ => _ end = true |- _ => rename Hf into Has end.
@@ -245,12 +244,6 @@ Proof.
     pose proof (mod_by_name_name _ _ _ E) as En.
     apply andb_true_iff in Hbn. destruct Hbn as [H1 H2]. apply beq_bytes_eq in H1, H2.
     rewrite (modinfo_eq mi' mi En H2 H1). reflexivity.
-  - intros m' mi' Hin' Hpe. rewrite forallb_forall in Hfun. specialize (Hfun _ Hin'). cbn [snd] in Hfun.
-    apply orb_true_iff in Hfun. destruct Hfun as [Hf|Hf].
-    + apply negb_true_iff in Hf. rewrite <- Hpe in Hf.
-      assert (E : beq_bytes (mi_prefix mi') (mi_prefix mi') = true) by (apply beq_bytes_eq; reflexivity).
-      rewrite E in Hf. discriminate Hf.
-    + apply beq_bytes_eq in Hf. symmetry. exact Hf.
 Qed.
 
 Record name_facts (sch : schema) (t : doctabs) (s : sid) : Prop := {
@@ -309,10 +302,11 @@ Proof.
   - destruct (split_colon k) as [mn nm].
     remember (match mod_by_name (dt_mods t) mn with Some i => i | None => mi_none end) as mi.
     unfold print_ns_prefix in H.
-    destruct (ns_find_prefix st (mi_ns mi) (mi_prefix mi) true) as [q|].
+    destruct (ns_find_prefix st (mi_ns mi) (mi_prefix mi) false) as [q|].
     + destruct (print_metas t st m) as [r st3] eqn:E. inversion H; subst attrs st2. cbn [app decls_of flat_map].
       apply (IH _ _ _ E).
-    + destruct (print_metas t ((Some (mi_prefix mi), mi_ns mi) :: st) m) as [r st3] eqn:E.
+    + cbv zeta in H. cbn [negb] in H.
+      destruct (print_metas t ((Some (uniq_prefix st (mi_prefix mi)), mi_ns mi) :: st) m) as [r st3] eqn:E.
       inversion H; subst attrs st2. cbn [app decls_of flat_map rev]. fold (decls_of r).
       rewrite (IH _ _ _ E). rewrite <- app_assoc. reflexivity.
 Qed.
@@ -327,57 +321,165 @@ Proof.
     cbn [app decls_of flat_map rev]. fold (decls_of r). rewrite (print_metas_stack _ _ _ _ _ E), <- app_assoc. reflexivity.
 Qed.
 
-(* a declaration with a prefix in the stack comes from the module table *)
-Definition PT (t : doctabs) (p u : bytes) : Prop :=
-  exists m mi, In (m, mi) (dt_mods t) /\ mi_prefix mi = p /\ mi_ns mi = u.
-Definition Inv (t : doctabs) (st : nsstack) : Prop := forall p u, In (Some p, u) st -> PT t p u.
+(* the prefixes declared in the scope: pairwise distinct (a declaration the printer adds gets a fresh prefix), identifiers,
+   never xmlns *)
+Definition sprefs (st : nsstack) : list bytes :=
+  flat_map (fun e : option bytes * bytes => match fst e with Some q => [q] | None => [] end) st.
+Definition pfx_good (p : bytes) : Prop := ncname_ok p = true /\ p <> xmlns_b.
+Definition Inv (st : nsstack) : Prop := NoDup (sprefs st) /\ Forall pfx_good (sprefs st).
 
-Lemma PT_func t p u u' : mods_okb t = true -> PT t p u -> PT t p u' -> u = u'.
+Lemma sprefs_app a b : sprefs (a ++ b) = sprefs a ++ sprefs b.
+Proof. unfold sprefs. apply flat_map_app. Qed.
+
+Lemma sprefs_in st q u : In (Some q, u) st -> In q (sprefs st).
+Proof. intro H. unfold sprefs. apply in_flat_map. exists (Some q, u). split; [exact H|left; reflexivity]. Qed.
+
+Lemma sprefs_uniq st q u u' : NoDup (sprefs st) -> In (Some q, u) st -> In (Some q, u') st -> u = u'.
 Proof.
-  intros Hm (m & mi & Hin & Hp & Hu) (m' & mi' & Hin' & Hp' & Hu'). subst.
-  symmetry. apply (mf_func _ _ _ (mods_ok_entry _ _ _ Hm Hin) _ _ Hin' Hp').
+  induction st as [|[[p|] w] r IH]; intros Hnd H1 H2; [contradiction| |].
+  - cbn [sprefs flat_map fst app] in Hnd. fold (sprefs r) in Hnd. inversion Hnd as [|? ? Hn Hr]; subst.
+    destruct H1 as [H1|H1]; destruct H2 as [H2|H2].
+    + congruence.
+    + inversion H1; subst. exfalso. apply Hn. apply (sprefs_in r q u' H2).
+    + inversion H2; subst. exfalso. apply Hn. apply (sprefs_in r q u H1).
+    + apply IH; assumption.
+  - cbn [sprefs flat_map fst app] in Hnd. fold (sprefs r) in Hnd.
+    destruct H1 as [H1|H1]; [discriminate H1|]. destruct H2 as [H2|H2]; [discriminate H2|]. apply IH; assumption.
 Qed.
 
-Lemma std_prefix_ns_in t st p u :
-  mods_okb t = true -> Inv t st -> In (Some p, u) st -> std_prefix_ns st p = Some u.
+Lemma std_prefix_ns_in st p u : NoDup (sprefs st) -> In (Some p, u) st -> std_prefix_ns st p = Some u.
 Proof.
-  intros Hm. induction st as [|[[q|] w] r IH]; intros HI Hin; [contradiction| |].
+  induction st as [|[[q|] w] r IH]; intros Hnd Hin; [contradiction| |].
   - cbn [std_prefix_ns]. destruct (beq_bytes q p) eqn:E.
-    + apply beq_bytes_eq in E. subst q.
-      assert (PT t p w) by (apply HI; left; reflexivity).
-      assert (PT t p u) by (apply HI; exact Hin).
-      f_equal. apply (PT_func t p); assumption.
-    + apply IH.
-      * intros a b Hab. apply HI. right. exact Hab.
-      * destruct Hin as [Hin|Hin]; [|exact Hin]. inversion Hin; subst. rewrite beq_bytes_true in E. discriminate E.
-  - cbn [std_prefix_ns]. apply IH.
-    + intros a b Hab. apply HI. right. exact Hab.
-    + destruct Hin as [Hin|Hin]; [discriminate Hin|exact Hin].
+    + apply beq_bytes_eq in E. subst q. f_equal. apply (sprefs_uniq _ p w u Hnd); [left; reflexivity|exact Hin].
+    + cbn [sprefs flat_map fst app] in Hnd. inversion Hnd; subst. apply IH; [assumption|].
+      destruct Hin as [Hin|Hin]; [|exact Hin]. inversion Hin; subst. rewrite beq_bytes_true in E. discriminate E.
+  - cbn [std_prefix_ns]. cbn [sprefs flat_map fst app] in Hnd. apply IH; [exact Hnd|].
+    destruct Hin as [Hin|Hin]; [discriminate Hin|exact Hin].
 Qed.
 
 Lemma ns_find_prefix_some st ns pfx q :
-  ns_find_prefix st ns pfx true = Some q -> q = pfx /\ In (Some pfx, ns) st.
+  ns_find_prefix st ns pfx false = Some q -> In (Some q, ns) st.
 Proof.
   induction st as [|[p u] r IH]; cbn [ns_find_prefix]; [discriminate|].
   destruct (beq_bytes u ns) eqn:Eu.
   - destruct p as [q'|].
-    + destruct (beq_bytes q' pfx) eqn:Eq; cbn [orb negb].
-      * intro H. inversion H; subst q'. apply beq_bytes_eq in Eq, Eu. subst. split; [reflexivity|left; reflexivity].
-      * intro H. destruct (IH H) as [H1 H2]. split; [exact H1|right; exact H2].
-    + intro H. destruct (IH H) as [H1 H2]. split; [exact H1|right; exact H2].
-  - intro H. destruct (IH H) as [H1 H2]. split; [exact H1|right; exact H2].
+    + cbn [negb]. rewrite orb_true_r. intro H. inversion H; subst q'. apply beq_bytes_eq in Eu. subst. left; reflexivity.
+    + intro H. right. exact (IH H).
+  - intro H. right. exact (IH H).
 Qed.
 
-Lemma ns_find_prefix_none st ns pfx :
-  ns_find_prefix st ns pfx true = None -> ~ In (Some pfx, ns) st.
+(* ---- the fresh prefix ---- *)
+Lemma prefix_used_spec st p : prefix_used st p = true <-> In p (sprefs st).
 Proof.
-  induction st as [|[p u] r IH]; cbn [ns_find_prefix]; [intros _ []|].
-  destruct (beq_bytes u ns) eqn:Eu.
-  - destruct p as [q'|].
-    + destruct (beq_bytes q' pfx) eqn:Eq; cbn [orb negb]; [discriminate|].
-      intros H [Hin|Hin]; [|exact (IH H Hin)]. inversion Hin; subst. rewrite beq_bytes_true in Eq. discriminate Eq.
-    + intros H [Hin|Hin]; [discriminate Hin|exact (IH H Hin)].
-  - intros H [Hin|Hin]; [|exact (IH H Hin)]. inversion Hin; subst. rewrite beq_bytes_true in Eu. discriminate Eu.
+  unfold prefix_used. induction st as [|[[q|] u] r IH]; cbn [existsb sprefs flat_map fst app]; try fold (sprefs r).
+  - split; [discriminate|contradiction].
+  - rewrite orb_true_iff, IH. split.
+    + intros [H|H]; [left; apply beq_bytes_eq in H; exact H|right; exact H].
+    + intros [H|H]; [left; subst; apply beq_bytes_true|right; exact H].
+  - cbn [orb]. exact IH.
+Qed.
+
+Lemma prefix_cand_inj sug a b : prefix_cand sug a = prefix_cand sug b -> a = b.
+Proof.
+  unfold prefix_cand. destruct (a =? 0) eqn:Ea; destruct (b =? 0) eqn:Eb; intro H.
+  - lia.
+  - exfalso. rewrite <- (app_nil_r sug) in H at 1. apply app_inv_head in H. symmetry in H. apply (IntLexP.N_to_dec_nonempty b H).
+  - exfalso. rewrite <- (app_nil_r sug) in H at 2. apply app_inv_head in H. apply (IntLexP.N_to_dec_nonempty a H).
+  - apply app_inv_head in H. apply IntLexP.N_to_dec_inj, H.
+Qed.
+
+Fixpoint uniq_from_l (fuel : nat) (used : list bytes) (sug : bytes) (n : N) : bytes :=
+  match fuel with
+  | O => prefix_cand sug n
+  | S f => if existsb (beq_bytes (prefix_cand sug n)) used then uniq_from_l f used sug (n + 1) else prefix_cand sug n
+  end.
+
+Lemma existsb_beq_in x l : existsb (beq_bytes x) l = true <-> In x l.
+Proof.
+  rewrite existsb_exists. split.
+  - intros (y & Hy & E). apply beq_bytes_eq in E. subst. exact Hy.
+  - intro H. exists x. split; [exact H|apply beq_bytes_true].
+Qed.
+
+Lemma uniq_from_l_cand fuel : forall used sug n, exists k, n <= k /\ uniq_from_l fuel used sug n = prefix_cand sug k.
+Proof.
+  induction fuel as [|f IH]; intros used sug n; cbn [uniq_from_l]; [exists n; split; [lia|reflexivity]|].
+  destruct (existsb (beq_bytes (prefix_cand sug n)) used); [|exists n; split; [lia|reflexivity]].
+  destruct (IH used sug (n + 1)) as (k & Hk & E). exists k. split; [lia|exact E].
+Qed.
+
+Lemma uniq_from_l_ext fuel : forall used used' sug n,
+  (forall k, n <= k -> (In (prefix_cand sug k) used <-> In (prefix_cand sug k) used')) ->
+  uniq_from_l fuel used sug n = uniq_from_l fuel used' sug n.
+Proof.
+  induction fuel as [|f IH]; intros used used' sug n H; cbn [uniq_from_l]; [reflexivity|].
+  assert (E : existsb (beq_bytes (prefix_cand sug n)) used = existsb (beq_bytes (prefix_cand sug n)) used').
+  { destruct (existsb (beq_bytes (prefix_cand sug n)) used) eqn:E1; destruct (existsb (beq_bytes (prefix_cand sug n)) used') eqn:E2; try reflexivity.
+    - apply existsb_beq_in in E1. apply (H n (N.le_refl n)) in E1. apply existsb_beq_in in E1. congruence.
+    - apply existsb_beq_in in E2. apply (H n (N.le_refl n)) in E2. apply existsb_beq_in in E2. congruence. }
+  rewrite E. destruct (existsb (beq_bytes (prefix_cand sug n)) used'); [|reflexivity].
+  apply IH. intros k Hk. apply H. lia.
+Qed.
+
+(* pigeonhole: with as many steps as there are used prefixes a free candidate is reached *)
+Lemma uniq_from_l_free fuel : forall used sug n, (length used <= fuel)%nat -> ~ In (uniq_from_l fuel used sug n) used.
+Proof.
+  induction fuel as [|f IH]; intros used sug n Hl.
+  - destruct used; [intros []|cbn in Hl; lia].
+  - cbn [uniq_from_l]. destruct (existsb (beq_bytes (prefix_cand sug n)) used) eqn:E.
+    + apply existsb_beq_in in E.
+      set (used' := filter (fun x => negb (beq_bytes x (prefix_cand sug n))) used).
+      assert (Hlen : (length used' < length used)%nat).
+      { subst used'. clear -E. induction used as [|y r IHr]; [contradiction|]. cbn [filter length].
+        destruct E as [E|E].
+        - subst y. rewrite beq_bytes_true. cbn [negb].
+          assert (Hle : forall (g : bytes -> bool) l, (length (filter g l) <= length l)%nat).
+          { intros g l. induction l as [|z l IHl]; [apply Nat.le_refl|]. cbn [filter]. destruct (g z); cbn [length]; lia. }
+          pose proof (Hle (fun x => negb (beq_bytes x (prefix_cand sug n))) r). lia.
+        - specialize (IHr E). destruct (negb (beq_bytes y (prefix_cand sug n))); cbn [length]; lia. }
+      assert (Hext : forall k, n + 1 <= k -> (In (prefix_cand sug k) used <-> In (prefix_cand sug k) used')).
+      { intros k Hk. subst used'. rewrite filter_In. split; [|intros [H _]; exact H].
+        intro H. split; [exact H|]. apply negb_true_iff. apply beq_bytes_false. intro Eq. apply prefix_cand_inj in Eq. lia. }
+      rewrite (uniq_from_l_ext f used used' sug (n + 1) Hext).
+      intro Hin. destruct (uniq_from_l_cand f used' sug (n + 1)) as (k & Hk & Ek).
+      rewrite Ek in Hin. apply (Hext k Hk) in Hin. rewrite <- Ek in Hin. revert Hin. apply IH. lia.
+    + intro Hin. apply existsb_beq_in in Hin. congruence.
+Qed.
+
+Lemma uniq_from_eq fuel : forall st sug n, uniq_from fuel st sug n = uniq_from_l fuel (sprefs st) sug n.
+Proof.
+  induction fuel as [|f IH]; intros st sug n; cbn [uniq_from uniq_from_l]; [reflexivity|].
+  assert (E : prefix_used st (prefix_cand sug n) = existsb (beq_bytes (prefix_cand sug n)) (sprefs st)).
+  { destruct (prefix_used st (prefix_cand sug n)) eqn:E1; destruct (existsb (beq_bytes (prefix_cand sug n)) (sprefs st)) eqn:E2; try reflexivity.
+    - apply prefix_used_spec in E1. apply existsb_beq_in in E1. congruence.
+    - apply existsb_beq_in in E2. apply prefix_used_spec in E2. congruence. }
+  rewrite E, IH. reflexivity.
+Qed.
+
+Lemma sprefs_length st : (length (sprefs st) <= length st)%nat.
+Proof. induction st as [|[[q|] u] r IH]; cbn [sprefs flat_map fst app length]; try fold (sprefs r); lia. Qed.
+
+Lemma uniq_prefix_free st sug : ~ In (uniq_prefix st sug) (sprefs st).
+Proof. unfold uniq_prefix. rewrite uniq_from_eq. apply uniq_from_l_free, sprefs_length. Qed.
+
+Lemma ncname_app_digits sug ds : ncname_ok sug = true -> forallb is_digit ds = true -> ncname_ok (sug ++ ds) = true.
+Proof.
+  intros Hs Hd. destruct sug as [|c r]; [discriminate|]. cbn [ncname_ok app] in *. apply andb_true_iff in Hs. destruct Hs as [H1 H2].
+  rewrite H1. cbn [andb]. rewrite forallb_app, H2. cbn [andb]. rewrite forallb_forall in *. intros x Hx. unfold is_ncname_char. rewrite (Hd x Hx).
+  rewrite orb_true_r. reflexivity.
+Qed.
+
+Lemma uniq_prefix_good st sug : pfx_good sug -> pfx_good (uniq_prefix st sug).
+Proof.
+  intros [Hn Hx]. unfold uniq_prefix. rewrite uniq_from_eq. destruct (uniq_from_l_cand (length st) (sprefs st) sug 0) as (k & _ & ->).
+  unfold prefix_cand. destruct (k =? 0); [split; assumption|]. split.
+  - apply ncname_app_digits; [exact Hn|apply IntLexP.N_to_dec_digits].
+  - intro E. pose proof (IntLexP.N_to_dec_digits k) as Hd. pose proof (IntLexP.N_to_dec_nonempty k) as Hne.
+    assert (Hall : forallb (fun c => negb (is_digit c)) (sug ++ N_to_dec k) = true) by (rewrite E; reflexivity).
+    rewrite forallb_app in Hall. apply andb_true_iff in Hall. destruct Hall as [_ Hall].
+    destruct (N_to_dec k) as [|c r]; [contradiction|]. cbn [forallb] in Hd, Hall.
+    apply andb_true_iff in Hd. apply andb_true_iff in Hall. destruct Hd as [Hd _]. destruct Hall as [Hall _]. rewrite Hd in Hall. discriminate Hall.
 Qed.
 
 Lemma std_default_ns_has st ns : ns_has_default st ns = true -> std_default_ns st = ns.
@@ -429,97 +531,99 @@ Section Metas.
   Hypothesis Hmods : mods_okb t = true.
 
   Lemma print_metas_spec m : forall st attrs st2,
-    Inv t st -> Forall (meta_ok t V) m -> NoDup (map fst m) -> print_metas t st m = (attrs, st2) ->
-    Forall (pattr_ok V) attrs /\ Inv t st2 /\
-    (forall p u, In (PDecl p u) attrs -> exists pf, p = Some pf /\ PT t pf u /\ ~ In (Some pf, u) st) /\
+    Inv st -> Forall (meta_ok t V) m -> NoDup (map fst m) -> print_metas t st m = (attrs, st2) ->
+    Forall (pattr_ok V) attrs /\ Inv st2 /\
+    (forall p u, In (PDecl p u) attrs -> exists pf, p = Some pf /\ ~ In pf (sprefs st)) /\
     (forall q nm v, In (PMeta q nm v) attrs ->
-       exists m0 mi, In (m0, mi) (dt_mods t) /\ q = mi_prefix mi /\ In (mi_name mi ++ 58 :: nm, v) m) /\
+       exists m0 mi, In (m0, mi) (dt_mods t) /\ In (Some q, mi_ns mi) st2 /\ In (mi_name mi ++ 58 :: nm, v) m) /\
     NoDup (map qn (map lex_pattr attrs)).
   Proof.
     induction m as [|[k v] m IH]; intros st attrs st2 HI Hall Hnd H; cbn [print_metas] in H.
-    - inversion H; subst. repeat split; try constructor; try assumption; intros; contradiction.
+    - inversion H; subst. repeat split; try constructor; try apply HI; intros; contradiction.
     - inversion Hall as [|? ? Hk Hall']; subst. destruct Hk as (Hv & m0 & mi & nm & Hin & Hnm & Ek). cbn [fst snd] in *.
       pose proof (mods_ok_entry _ _ _ Hmods Hin) as MF.
       subst k. rewrite (split_colon_app _ _ (proj1 (ncname_ok_chars _ (mf_name _ _ _ MF)))) in H.
       rewrite (mf_byname _ _ _ MF) in H.
       cbn [map] in Hnd. inversion Hnd as [|? ? Hnk Hnd']; subst.
-      unfold print_ns_prefix in H.
-      assert (PTmi : PT t (mi_prefix mi) (mi_ns mi)) by (exists m0, mi; auto).
-      (* facts shared by both branches, given the stack st1 the rest is printed with *)
-      assert (Step : forall d st1 r,
-                 (d = [] /\ st1 = st /\ In (Some (mi_prefix mi), mi_ns mi) st) \/
-                 (d = [PDecl (Some (mi_prefix mi)) (mi_ns mi)] /\ st1 = (Some (mi_prefix mi), mi_ns mi) :: st /\
-                  ~ In (Some (mi_prefix mi), mi_ns mi) st) ->
+      unfold print_ns_prefix in H. cbv zeta in H. cbn [negb] in H.
+      assert (Step : forall d st1 r q,
+                 (d = [] /\ st1 = st /\ In (Some q, mi_ns mi) st) \/
+                 (d = [PDecl (Some q) (mi_ns mi)] /\ st1 = (Some q, mi_ns mi) :: st /\ ~ In q (sprefs st) /\ pfx_good q) ->
                  print_metas t st1 m = (r, st2) ->
-                 attrs = d ++ PMeta (mi_prefix mi) nm v :: r ->
-                 Forall (pattr_ok V) attrs /\ Inv t st2 /\
-                 (forall p u, In (PDecl p u) attrs -> exists pf, p = Some pf /\ PT t pf u /\ ~ In (Some pf, u) st) /\
-                 (forall q nm' v', In (PMeta q nm' v') attrs ->
-                    exists m1 mi1, In (m1, mi1) (dt_mods t) /\ q = mi_prefix mi1 /\
+                 attrs = d ++ PMeta q nm v :: r ->
+                 Forall (pattr_ok V) attrs /\ Inv st2 /\
+                 (forall p u, In (PDecl p u) attrs -> exists pf, p = Some pf /\ ~ In pf (sprefs st)) /\
+                 (forall q' nm' v', In (PMeta q' nm' v') attrs ->
+                    exists m1 mi1, In (m1, mi1) (dt_mods t) /\ In (Some q', mi_ns mi1) st2 /\
                                    In (mi_name mi1 ++ 58 :: nm', v') ((mi_name mi ++ 58 :: nm, v) :: m)) /\
                  NoDup (map qn (map lex_pattr attrs))).
-      { intros d st1 r Hd E Ea.
-        assert (HI1 : Inv t st1).
-        { destruct Hd as [(_ & -> & _)|(_ & -> & _)]; [exact HI|].
-          intros p u [Hpu|Hpu]; [inversion Hpu; subst; exact PTmi|apply HI, Hpu]. }
+      { intros d st1 r q Hd E Ea.
+        assert (HI1 : Inv st1).
+        { destruct Hd as [(_ & -> & _)|(_ & -> & Hnq & Hg)]; [exact HI|]. destruct HI as [H1 H2].
+          split; cbn [sprefs flat_map fst app]; fold (sprefs st); constructor; assumption. }
+        assert (Hq1 : In (Some q, mi_ns mi) st1).
+        { destruct Hd as [(_ & -> & Hq)|(_ & -> & _)]; [exact Hq|left; reflexivity]. }
         destruct (IH _ _ _ HI1 Hall' Hnd' E) as (A1 & A2 & A3 & A4 & A5).
-        assert (Pm : pattr_ok V (PMeta (mi_prefix mi) nm v)).
-        { cbn [pattr_ok]. repeat split; [apply (mf_prefix _ _ _ MF)|apply (mf_notxmlns _ _ _ MF)|exact Hnm|exact Hv]. }
-        assert (Incl1 : forall e, In e st -> In e st1).
-        { destruct Hd as [(_ & -> & _)|(_ & -> & _)]; intros e He; [exact He|right; exact He]. }
-        (* the attribute of this metadata instance is not among those of the rest *)
-        assert (NotInR : ~ In (Some (mi_prefix mi), nm) (map qn (map lex_pattr r))).
-        { intro Hq. rewrite map_map in Hq. apply in_map_iff in Hq. destruct Hq as (a & Hqa & Har).
-          destruct a as [[p|] ns|q nm' v']; cbn [lex_pattr qn fst snd] in Hqa.
-          - inversion Hqa as [[Hx Hy]]. apply (mf_notxmlns _ _ _ MF). symmetry. exact Hx.
+        pose proof (print_metas_stack _ _ _ _ _ E) as Est.
+        assert (Hq2 : In (Some q, mi_ns mi) st2) by (rewrite Est; apply in_or_app; right; exact Hq1).
+        assert (Hqg : pfx_good q).
+        { destruct A2 as [_ G]. rewrite Forall_forall in G. apply G, (sprefs_in _ _ _ Hq2). }
+        assert (Pm : pattr_ok V (PMeta q nm v)).
+        { cbn [pattr_ok]. destruct Hqg as [G1 G2]. repeat split; assumption. }
+        assert (Incl1 : forall x, In x (sprefs st) -> In x (sprefs st1)).
+        { destruct Hd as [(_ & -> & _)|(_ & -> & _)]; intros x Hx; [exact Hx|]. cbn [sprefs flat_map fst app]. right. exact Hx. }
+        assert (NotInR : ~ In (Some q, nm) (map qn (map lex_pattr r))).
+        { intro Hx. rewrite map_map in Hx. apply in_map_iff in Hx. destruct Hx as (a & Hqa & Har).
+          destruct a as [[p|] ns|q' nm' v']; cbn [lex_pattr qn fst snd] in Hqa.
+          - inversion Hqa as [[Hx Hy]]. apply (proj2 Hqg). symmetry. exact Hx.
           - discriminate Hqa.
-          - inversion Hqa; subst q nm'.
-            destruct (A4 _ _ _ Har) as (m1 & mi1 & Hin1 & Hq1 & Hk1).
+          - inversion Hqa; subst q' nm'.
+            destruct (A4 _ _ _ Har) as (m1 & mi1 & Hin1 & Hq1' & Hk1).
             pose proof (mods_ok_entry _ _ _ Hmods Hin1) as MF1.
-            assert (Ens : mi_ns mi1 = mi_ns mi) by (apply (mf_func _ _ _ MF _ _ Hin1); symmetry; exact Hq1).
+            assert (Ens : mi_ns mi1 = mi_ns mi) by (apply (sprefs_uniq st2 q); [apply A2|exact Hq1'|exact Hq2]).
             pose proof (mf_byns _ _ _ MF1) as B1. rewrite Ens, (mf_byns _ _ _ MF) in B1.
             inversion B1; subst mi1. apply Hnk. change (mi_name mi ++ 58 :: nm) with (fst (mi_name mi ++ 58 :: nm, v')).
             apply in_map, Hk1. }
         subst attrs. split; [|split; [|split; [|split]]].
         - apply Forall_app. split.
-          + destruct Hd as [(-> & _)|(-> & _)]; constructor; [|constructor].
-            cbn [pattr_ok]. repeat split; [apply (mf_prefix _ _ _ MF)|apply (mf_notxmlns _ _ _ MF)|apply (mf_ns _ _ _ MF)|apply (mf_ns _ _ _ MF)].
+          + destruct Hd as [(-> & _)|(-> & _ & _ & G1 & G2)]; constructor; [|constructor].
+            cbn [pattr_ok]. repeat split; [exact G1|exact G2|apply (mf_ns _ _ _ MF)|apply (mf_ns _ _ _ MF)].
           + constructor; assumption.
         - exact A2.
         - intros p u Hpu. apply in_app_or in Hpu. destruct Hpu as [Hpu|[Hpu|Hpu]].
-          + destruct Hd as [(-> & _)|(-> & _ & Hn)]; [contradiction|].
-            destruct Hpu as [Hpu|[]]. inversion Hpu; subst. exists (mi_prefix mi). repeat split; assumption.
+          + destruct Hd as [(-> & _)|(-> & _ & Hn & _)]; [contradiction|].
+            destruct Hpu as [Hpu|[]]. inversion Hpu; subst. exists q. split; [reflexivity|exact Hn].
           + discriminate Hpu.
-          + destruct (A3 _ _ Hpu) as (pf & -> & Hpt & Hni). exists pf. repeat split; [exact Hpt|].
-            intro Hx. apply Hni, Incl1, Hx.
-        - intros q nm' v' Hq. apply in_app_or in Hq. destruct Hq as [Hq|[Hq|Hq]].
+          + destruct (A3 _ _ Hpu) as (pf & -> & Hni). exists pf. split; [reflexivity|]. intro Hx. apply Hni, Incl1, Hx.
+        - intros q' nm' v' Hq. apply in_app_or in Hq. destruct Hq as [Hq|[Hq|Hq]].
           + destruct Hd as [(-> & _)|(-> & _)]; [contradiction|]. destruct Hq as [Hq|[]]. discriminate Hq.
-          + inversion Hq; subst. exists m0, mi. repeat split; [exact Hin|left; reflexivity].
+          + inversion Hq; subst. exists m0, mi. repeat split; [exact Hin|exact Hq2|left; reflexivity].
           + destruct (A4 _ _ _ Hq) as (m1 & mi1 & X1 & X2 & X3). exists m1, mi1. repeat split; [exact X1|exact X2|right; exact X3].
         - rewrite !map_app. cbn [map lex_pattr qn fst snd].
-          destruct Hd as [(-> & _ & _)|(-> & -> & Hn)]; cbn [map app].
+          destruct Hd as [(-> & _ & _)|(-> & -> & Hn & _)]; cbn [map app].
           + constructor; assumption.
           + cbn [lex_pattr qn fst snd]. constructor.
             * intros [Hx|Hx].
-              { inversion Hx as [[Hy Hz]]. apply (mf_notxmlns _ _ _ MF). exact Hy. }
+              { inversion Hx as [[Hy Hz]]. apply (proj2 Hqg). exact Hy. }
               rewrite map_map in Hx. apply in_map_iff in Hx. destruct Hx as (a & Hqa & Har).
-              destruct a as [[p|] ns|q nm' v']; cbn [lex_pattr qn fst snd] in Hqa.
+              destruct a as [[p|] ns|q' nm' v']; cbn [lex_pattr qn fst snd] in Hqa.
               -- inversion Hqa; subst p.
-                 destruct (A3 _ _ Har) as (pf & Hpf & Hpt & Hni). inversion Hpf; subst pf.
-                 assert (ns = mi_ns mi) by (apply (PT_func t (mi_prefix mi)); assumption). subst ns.
-                 apply Hni. left. reflexivity.
+                 destruct (A3 _ _ Har) as (pf & Hpf & Hni). inversion Hpf; subst pf.
+                 apply Hni. cbn [sprefs flat_map fst app]. left. reflexivity.
               -- discriminate Hqa.
               -- inversion Hqa as [[Hy Hz]].
-                 destruct (A4 _ _ _ Har) as (m1 & mi1 & Hin1 & Hq1 & _).
-                 apply (mf_notxmlns _ _ _ (mods_ok_entry _ _ _ Hmods Hin1)). rewrite <- Hq1. exact Hy.
+                 destruct (A4 _ _ _ Har) as (m1 & mi1 & _ & Hq1' & _).
+                 destruct A2 as [_ G]. rewrite Forall_forall in G. apply (proj2 (G _ (sprefs_in _ _ _ Hq1'))). exact Hy.
             * constructor; assumption. }
-      destruct (ns_find_prefix st (mi_ns mi) (mi_prefix mi) true) as [q|] eqn:Ef.
-      + destruct (ns_find_prefix_some _ _ _ _ Ef) as [-> Hin1].
+      destruct (ns_find_prefix st (mi_ns mi) (mi_prefix mi) false) as [q|] eqn:Ef.
+      + pose proof (ns_find_prefix_some _ _ _ _ Ef) as Hin1.
         destruct (print_metas t st m) as [r st3] eqn:E. inversion H; subst attrs st3.
-        apply (Step [] st r); [left; repeat split; assumption|exact E|reflexivity].
-      + pose proof (ns_find_prefix_none _ _ _ Ef) as Hn.
-        destruct (print_metas t ((Some (mi_prefix mi), mi_ns mi) :: st) m) as [r st3] eqn:E. inversion H; subst attrs st3.
-        apply (Step [PDecl (Some (mi_prefix mi)) (mi_ns mi)] ((Some (mi_prefix mi), mi_ns mi) :: st) r); [right; repeat split; assumption|exact E|reflexivity].
+        apply (Step [] st r q); [left; repeat split; assumption|exact E|reflexivity].
+      + set (q := uniq_prefix st (mi_prefix mi)) in *.
+        destruct (print_metas t ((Some q, mi_ns mi) :: st) m) as [r st3] eqn:E. inversion H; subst attrs st3.
+        apply (Step [PDecl (Some q) (mi_ns mi)] ((Some q, mi_ns mi) :: st) r q); [|exact E|reflexivity].
+        right. repeat split; [apply uniq_prefix_free|apply uniq_prefix_good; split; [apply (mf_prefix _ _ _ MF)|apply (mf_notxmlns _ _ _ MF)]
+                             |apply uniq_prefix_good; split; [apply (mf_prefix _ _ _ MF)|apply (mf_notxmlns _ _ _ MF)]].
   Qed.
 End Metas.
 
@@ -556,7 +660,7 @@ Section Metas2.
   Qed.
 
   Lemma expand_printed m : forall st attrs st2 stF,
-    print_metas t st m = (attrs, st2) -> Inv t stF -> (forall e, In e st2 -> In e stF) -> Forall (meta_ok t V) m ->
+    print_metas t st m = (attrs, st2) -> Inv stF -> (forall e, In e st2 -> In e stF) -> Forall (meta_ok t V) m ->
     std_expand_attrs stF (map lex_pattr attrs) = Some (map (meta_generic t) m).
   Proof.
     induction m as [|[k v] m IH]; intros st attrs st2 stF H HIF Hincl Hall; cbn [print_metas] in H.
@@ -564,28 +668,31 @@ Section Metas2.
     - inversion Hall as [|? ? Hk Hall']; subst. destruct Hk as (Hv & m0 & mi & nm & Hin & Hnm & Ek). cbn [fst snd] in *.
       pose proof (mods_ok_entry _ _ _ Hmods Hin) as MF.
       rewrite Ek in H. rewrite (split_colon_app _ _ (proj1 (ncname_ok_chars _ (mf_name _ _ _ MF)))) in H.
-      rewrite (mf_byname _ _ _ MF) in H. unfold print_ns_prefix in H.
+      rewrite (mf_byname _ _ _ MF) in H. unfold print_ns_prefix in H. cbv zeta in H. cbn [negb] in H.
       cbn [map]. rewrite (meta_generic_ok k v m0 mi nm Hin Ek).
-      assert (Step : forall d st1 r,
-                 (d = [] \/ d = [PDecl (Some (mi_prefix mi)) (mi_ns mi)]) -> In (Some (mi_prefix mi), mi_ns mi) st1 ->
-                 print_metas t st1 m = (r, st2) -> attrs = d ++ PMeta (mi_prefix mi) nm v :: r ->
+      assert (Step : forall d st1 r q,
+                 (d = [] \/ d = [PDecl (Some q) (mi_ns mi)]) -> In (Some q, mi_ns mi) st1 ->
+                 print_metas t st1 m = (r, st2) -> attrs = d ++ PMeta q nm v :: r ->
                  std_expand_attrs stF (map lex_pattr attrs) = Some ((mi_ns mi, nm, v) :: map (meta_generic t) m)).
-      { intros d st1 r Hd Hin1 E ->.
-        assert (Hst2 : In (Some (mi_prefix mi), mi_ns mi) st2).
+      { intros d st1 r q Hd Hin1 E ->.
+        assert (Hst2 : In (Some q, mi_ns mi) st2).
         { rewrite (print_metas_stack _ _ _ _ _ E). apply in_or_app. right. exact Hin1. }
-        assert (Tail : std_expand_attrs stF (map lex_pattr (PMeta (mi_prefix mi) nm v :: r)) =
+        assert (Hqx : q <> xmlns_b).
+        { destruct HIF as [_ G]. rewrite Forall_forall in G. apply (G q (sprefs_in _ _ _ (Hincl _ Hst2))). }
+        assert (Tail : std_expand_attrs stF (map lex_pattr (PMeta q nm v :: r)) =
                        Some ((mi_ns mi, nm, v) :: map (meta_generic t) m)).
-        { cbn [map lex_pattr std_expand_attrs]. rewrite (beq_bytes_false _ _ (mf_notxmlns _ _ _ MF)).
-          rewrite (std_prefix_ns_in t stF _ _ Hmods HIF (Hincl _ Hst2)).
+        { cbn [map lex_pattr std_expand_attrs]. rewrite (beq_bytes_false _ _ Hqx).
+          rewrite (std_prefix_ns_in stF _ _ (proj1 HIF) (Hincl _ Hst2)).
           rewrite (IH _ _ _ _ E HIF Hincl Hall'). reflexivity. }
         destruct Hd as [->| ->]; [exact Tail|].
         cbn [app map]. cbn [lex_pattr std_expand_attrs]. rewrite beq_bytes_true. exact Tail. }
-      destruct (ns_find_prefix st (mi_ns mi) (mi_prefix mi) true) as [q|] eqn:Ef.
-      + destruct (ns_find_prefix_some _ _ _ _ Ef) as [-> Hin1].
+      destruct (ns_find_prefix st (mi_ns mi) (mi_prefix mi) false) as [q|] eqn:Ef.
+      + pose proof (ns_find_prefix_some _ _ _ _ Ef) as Hin1.
         destruct (print_metas t st m) as [r st3] eqn:E. inversion H; subst attrs st3.
-        apply (Step [] st r); [left; reflexivity|exact Hin1|exact E|reflexivity].
-      + destruct (print_metas t ((Some (mi_prefix mi), mi_ns mi) :: st) m) as [r st3] eqn:E. inversion H; subst attrs st3.
-        apply (Step [PDecl (Some (mi_prefix mi)) (mi_ns mi)] ((Some (mi_prefix mi), mi_ns mi) :: st) r);
+        apply (Step [] st r q); [left; reflexivity|exact Hin1|exact E|reflexivity].
+      + set (q := uniq_prefix st (mi_prefix mi)) in *.
+        destruct (print_metas t ((Some q, mi_ns mi) :: st) m) as [r st3] eqn:E. inversion H; subst attrs st3.
+        apply (Step [PDecl (Some q) (mi_ns mi)] ((Some q, mi_ns mi) :: st) r q);
           [right; reflexivity|left; reflexivity|exact E|reflexivity].
   Qed.
 
@@ -607,10 +714,10 @@ Section Metas2.
 
   (* everything the reader needs to know about the start tag of a node *)
   Lemma open_attrs_spec st s m attrs st' :
-    Inv t st -> Forall (meta_ok t V) m -> NoDup (map fst m) ->
+    Inv st -> Forall (meta_ok t V) m -> NoDup (map fst m) ->
     (exists mi, In (node_mod t s, mi) (dt_mods t) /\ mod_info t (node_mod t s) = mi) ->
     open_attrs t st s m = (attrs, st') ->
-    Forall (pattr_ok V) attrs /\ Inv t st' /\ st' = rev (decls_of attrs) ++ st /\
+    Forall (pattr_ok V) attrs /\ Inv st' /\ st' = rev (decls_of attrs) ++ st /\
     uniq_qnames (map lex_pattr attrs) = true /\ forallb lattr_qname_ok (map lex_pattr attrs) = true /\
     std_default_ns st' = node_ns t s /\
     std_expand_attrs st' (map lex_pattr attrs) = Some (map (meta_generic t) m) /\
@@ -625,14 +732,13 @@ Section Metas2.
                (d = [] /\ st1 = st /\ std_default_ns st = node_ns t s) \/
                (d = [PDecl None (node_ns t s)] /\ st1 = (None, node_ns t s) :: st) ->
                print_metas t st1 m = (r, st') -> attrs = d ++ r ->
-               Forall (pattr_ok V) attrs /\ Inv t st' /\
+               Forall (pattr_ok V) attrs /\ Inv st' /\
                uniq_qnames (map lex_pattr attrs) = true /\ forallb lattr_qname_ok (map lex_pattr attrs) = true /\
                std_default_ns st' = node_ns t s /\
                std_expand_attrs st' (map lex_pattr attrs) = Some (map (meta_generic t) m)).
     { intros d st1 r Hd E ->.
-      assert (HI1 : Inv t st1).
-      { destruct Hd as [(_ & -> & _)|(_ & ->)]; [exact HI|].
-        intros p u [Hpu|Hpu]; [discriminate Hpu|apply HI, Hpu]. }
+      assert (HI1 : Inv st1).
+      { destruct Hd as [(_ & -> & _)|(_ & ->)]; exact HI. }
       destruct (print_metas_spec t V Hmods m _ _ _ HI1 Hall Hnd E) as (A1 & A2 & A3 & A4 & A5).
       assert (Pall : Forall (pattr_ok V) (d ++ r)).
       { apply Forall_app. split; [|exact A1].
@@ -662,11 +768,11 @@ Section Metas2.
     - destruct (print_metas t st m) as [r st2] eqn:E. inversion H; subst attrs st2.
       destruct (Main [] st r) as (B1 & B2 & B3 & B4 & B5 & B6);
         [left; repeat split; apply std_default_ns_has, Ed|exact E|reflexivity|].
-      repeat split; assumption.
+      exact (conj B1 (conj B2 (conj Hst (conj B3 (conj B4 (conj B5 (conj B6 Hux))))))).
     - destruct (print_metas t ((None, node_ns t s) :: st) m) as [r st2] eqn:E. inversion H; subst attrs st2.
       destruct (Main [PDecl None (node_ns t s)] ((None, node_ns t s) :: st) r) as (B1 & B2 & B3 & B4 & B5 & B6);
         [right; split; reflexivity|exact E|reflexivity|].
-      repeat split; assumption.
+      exact (conj B1 (conj B2 (conj Hst (conj B3 (conj B4 (conj B5 (conj B6 Hux))))))).
   Qed.
 End Metas2.
 
@@ -781,7 +887,7 @@ Section Main.
   Proof. reflexivity. Qed.
 
   Definition gen_step (n : dnode) : Prop := forall p f st rest,
-    Placed p n -> DocN n -> Inv t st ->
+    Placed p n -> DocN n -> Inv st ->
     (length (xml_node sch t sel_all st n ++ rest) <= f)%nat ->
     gx_content rd_text rd_att (S f) st (xml_node sch t sel_all st n ++ rest) =
       match gx_content rd_text rd_att f st rest with
@@ -803,7 +909,7 @@ Section Main.
 
   Lemma gx_list ch :
     Forall gen_step ch -> forall p f st rest,
-    Forall (Placed p) ch -> Forall DocN ch -> Inv t st -> rest_end rest ->
+    Forall (Placed p) ch -> Forall DocN ch -> Inv st -> rest_end rest ->
     (length (flat_map (xml_node sch t sel_all st) ch ++ rest) < f)%nat ->
     gx_content rd_text rd_att f st (flat_map (xml_node sch t sel_all st) ch ++ rest) =
       Some ([], map (to_generic_node t) ch, rest).
@@ -916,8 +1022,8 @@ Section Main.
     - exfalso. apply Hany. reflexivity.
   Qed.
 
-  Lemma Inv_nil : Inv t [].
-  Proof. intros p u []. Qed.
+  Lemma Inv_nil : Inv [].
+  Proof. split; constructor. Qed.
 
   (* the generic reader on the printed forest: no character data at the top, the generic trees of the nodes *)
   Theorem gx_parse_printed f :
